@@ -99,7 +99,7 @@ def runRT (fixInf : Bool) (o : Opts) (text : Bytes) : String :=
     "ok " ++ sx e ++ " ; " ++ hexB printed ++ " ; " ++ a2 ++ " ; " ++ p2 ++ " ; " ++ hexB pretty ++ " ; " ++ a3 ++ " ; " ++ p3
 
 /-- The repaired printer (finding F13) is in force in /repo once fixes/F13.patch is applied. -/
-def repoFixedInf : Bool := true
+def repoFixedInf : Bool := false
 
 def modelLine (line : String) : String :=
   match toks line with
